@@ -239,9 +239,9 @@ func (qr *queryRequest) executeCallback(cb func(QueryRequest)) {
 			}
 			str = e.Message
 		case error:
-			str = e.Error()
+			str = errorString(e)
 			if !qr.replied {
-				qr.error(ToError(e))
+				qr.error(InternalError(errors.New(str)))
 			}
 		case string:
 			str = e
